@@ -91,7 +91,7 @@ def _egos():
     if EGOS is None:
         from ..build import EgoPose
 
-        EGOS = [EgoPose(1000.0, -500.0, 32.0, math.pi / 2), EgoPose(-37.5, 220.25, -4.5, 0.7)]
+        EGOS = [EgoPose(1000.0, -500.0, 32.0, math.pi / 2), EgoPose(-37.5, 220.25, -4.5, 0.7), EgoPose(262144.0, -196608.0, 8.0, math.pi)]
     return EGOS
 
 
